@@ -167,44 +167,59 @@ def convertDirs (strs : Strs) : CSt → List AttrVal → CRes CSt
     let (prog, id) ← ofWrite (addDirectory st.prog s)
     convertDirs strs { st with prog, tabs, dirs := st.dirs ++ [id] } ds
 
+/-- the working directory of `ConvertLineProgram::new`: directory 0 of the source header, or — for
+versions ≤ 4, where it is not emitted — an empty string -/
+def workingDir (strs : Strs) (hd : Header) (tabs : Tabs) : CRes (Tabs × LineStr) :=
+  match hd.directory 0 with
+  | some d => convertString strs hd.p.version tabs d
+  | none =>
+    if hd.p.version ≤ 4 then pure (tabs, { form := .string, val := [] })
+    else .err .missingCompilationDirectory
+
+/-- the source directory and source file of `ConvertLineProgram::new` (no skeleton unit): file 0 of
+the source header -/
+def sourceFile (strs : Strs) (hd : Header) (tabs : Tabs) : CRes (Tabs × Option LineStr × LineStr) :=
+  match hd.file 0 with
+  | some f => do
+    let (tabs, sd) ← (
+      if f.dirIndex ≠ 0 then
+        match hd.directory f.dirIndex with
+        | some d => do
+          let (tabs, x) ← convertString strs hd.p.version tabs d
+          pure (tabs, some x)
+        | none => .err .invalidDirectoryIndex
+      else pure (tabs, none) : CRes (Tabs × Option LineStr))
+    let (tabs, sf) ← convertString strs hd.p.version tabs f.path
+    pure (tabs, sd, sf)
+  | none =>
+    if hd.p.version ≤ 4 then pure (tabs, none, { form := .string, val := [] })
+    else .err .missingCompilationName
+
+/-- the encoding `ConvertLineProgram::new` hands to `LineProgram::new`: the source header's -/
+def encOf (p : Params) : Enc :=
+  { version := p.version, minInstLen := p.minInstLen, maxOps := p.maxOps, defaultIsStmt := p.defaultIsStmt,
+    lineBase := p.lineBase, lineRange := p.lineRange }
+
+/-- the `file_has_*` flags of the source header -/
+def withFlags (hd : Header) (st : CSt) : CSt :=
+  let has (ct : Nat) : Bool := hd.fileFormat.any (fun x => x.1 == ct)
+  { st with prog := { st.prog with hasTimestamp := decide (hd.p.version ≤ 4) || has 3,
+                                   hasSize := decide (hd.p.version ≤ 4) || has 4,
+                                   hasMd5 := has 5, hasSource := has 0x2001 } }
+
 /-- `ConvertLineProgram::new` with `encoding = None`, `line_encoding = None`, no skeleton unit
 (`from_comp_name = None`) -/
 def convNew (m : Mode) (strs : Strs) (hd : Header) (tabs : Tabs) : CRes CSt := do
   let version := hd.p.version
-  let enc : Enc := { version, minInstLen := hd.p.minInstLen, maxOps := hd.p.maxOps,
-                     defaultIsStmt := hd.p.defaultIsStmt, lineBase := hd.p.lineBase,
-                     lineRange := hd.p.lineRange }
-  let (tabs, workingDir) ← (match hd.directory 0 with
-    | some d => convertString strs version tabs d
-    | none =>
-      if version ≤ 4 then pure (tabs, { form := .string, val := [] })
-      else .err .missingCompilationDirectory : CRes (Tabs × LineStr))
-  let (tabs, sourceDir, sourceFile) ← (match hd.file 0 with
-    | some f => do
-      let (tabs, sd) ← (
-        if f.dirIndex ≠ 0 then
-          match hd.directory f.dirIndex with
-          | some d => do
-            let (tabs, x) ← convertString strs version tabs d
-            pure (tabs, some x)
-          | none => .err .invalidDirectoryIndex
-        else pure (tabs, none) : CRes (Tabs × Option LineStr))
-      let (tabs, sf) ← convertString strs version tabs f.path
-      pure (tabs, sd, sf)
-    | none =>
-      if version ≤ 4 then pure (tabs, none, { form := .string, val := [] })
-      else .err .missingCompilationName : CRes (Tabs × Option LineStr × LineStr))
+  let (tabs, wd) ← workingDir strs hd tabs
+  let (tabs, sd, sf) ← sourceFile strs hd tabs
   if hd.p.lineBase > 0 ∨ hd.p.lineBase + (hd.p.lineRange : Int) ≤ 0 then .err .invalidLineBase else
-  let prog ← ofWrite (Prog.new m hd.p.format hd.p.addrSize enc workingDir sourceDir sourceFile none)
+  let prog ← ofWrite (Prog.new m hd.p.format hd.p.addrSize (encOf hd.p) wd sd sf none)
   let st : CSt := { prog, tabs, files := if version ≤ 4 then [0] else [],
                     dirs := if version ≤ 4 then [0] else [],
                     fromRow := Row.new hd.p, fromAddress := 0, inSeq := false }
   let st ← convertDirs strs st hd.dirs
-  let has (ct : Nat) : Bool := hd.fileFormat.any (fun x => x.1 == ct)
-  let st := { st with prog := { st.prog with hasTimestamp := decide (version ≤ 4) || has 3,
-                                              hasSize := decide (version ≤ 4) || has 4,
-                                              hasMd5 := has 5, hasSource := has 0x2001 } }
-  convertFiles strs st hd.files
+  convertFiles strs (withFlags hd st) hd.files
 
 /-- `ConvertLineProgram::convert_row`; its first step is `address_offset()`: an offset that is not a
 multiple of the minimum instruction length (which `DW_LNS_fixed_advance_pc` can produce) cannot be
